@@ -278,6 +278,13 @@ func (c *CheckCtx) run(verbose bool) int {
 	if c.Tier == "thorough" {
 		opts.NeedAgree = 1
 	}
+	for _, o := range c.Obls {
+		for _, k := range readKnownFindings("/verif/known_findings.txt") {
+			if k.Kind == "known" && k.Property == spec.ID && k.Obligation == o.Name {
+				o.NoRetry = true
+			}
+		}
+	}
 	tSolve := time.Now()
 	dischargeAll(c.Obls, opts, 16, keep)
 	solveWall := time.Since(tSolve).Seconds()
